@@ -270,6 +270,9 @@ package base
 
 //@ func ti/base.MakeArray
 //@   safe
+//@   transparent
+//@   # C21: an array type holds exactly the given members
+//@   ensures[C21] fresh(result) && result.tType == ARRAY && result.variants == variants
 
 //@ func ti/base.MakeAsteriskUntyped
 //@   safe
